@@ -257,7 +257,7 @@ def window_grid(tier):
 def window_case(draw):
     names = st.from_regex(r'VK_[A-Z]{1,6}', fullmatch=True)
     extra = [[k, draw(st.text(alphabet='abc/._-019', max_size=8))] for k in draw(st.lists(names, max_size=3, unique=True))]
-    return dict(calib=draw(st.sampled_from(['/calib/dir', '', '/x y/z', None])), resolve=draw(st.sampled_from(['@tmp', '/nonexistent', None])),
+    return dict(calib=draw(st.sampled_from(['/calib/dir', '', '/x y/z', None, '~', '~/photo/calib', '$HOME/calib', 'relative/dir'])), resolve=draw(st.sampled_from(['@tmp', '/nonexistent', None])),
                 rescore=draw(st.booleans()), flist=draw(st.sampled_from(['ok', 'ok', 'missing', 'bad-table'])), extra=extra)
 
 
